@@ -6,6 +6,7 @@ import (
 	"fmt"
 	"os"
 	"os/exec"
+	"path/filepath"
 	"regexp"
 	"runtime"
 	"strconv"
@@ -214,8 +215,62 @@ func (e *fileSysExec) execCtx(n, k int) (obs, viol string) {
 	return after + " " + again, viol
 }
 
+// execSame: fsame <n> <kind>: a Store that fails BEFORE anything is written because of the
+// environment (the base directory is missing, or is a regular file), the environment repaired, and
+// the same node stored again through the SAME Persist value (a long-running process): the second
+// Store must really write.
+func (e *fileSysExec) execSame(n int, kind string) (obs, viol string) {
+	dir, err := os.MkdirTemp("", "verif-filesame-")
+	if err != nil {
+		panic(err)
+	}
+	defer os.RemoveAll(dir)
+	base := filepath.Join(dir, "nodes")
+	if kind == "notdir" {
+		os.WriteFile(base, []byte("x"), 0644)
+	}
+	want := patternBytes(n)
+	p := mfile.NewPersistForPath(base)
+	serr := p.Store(context.Background(), crashName, want)
+	classify := func() string {
+		b, err := p.Load(context.Background(), crashName)
+		if err != nil {
+			return "absent"
+		}
+		if bytes.Equal(b, want) {
+			return "complete"
+		}
+		return fmt.Sprintf("partial(%d/%d)", len(b), n)
+	}
+	after := classify()
+	where := fmt.Sprintf("write of %d bytes into a base directory that is %s", n, map[string]string{"missing": "missing", "notdir": "a regular file"}[kind])
+	if serr == nil && after != "complete" {
+		viol = fmt.Sprintf("%s: the write reported success but a later load returns %s", where, after)
+	}
+	os.Remove(base)
+	os.Mkdir(base, 0755)
+	err = p.Store(context.Background(), crashName, want)
+	again := classify()
+	if err != nil {
+		again = "storeerr"
+	}
+	if viol == "" && again != "complete" {
+		viol = fmt.Sprintf("%s, then (directory created) stored again through the same Persist: a later load returns %s (not repaired)", where, again)
+	}
+	if after == "complete" {
+		e.lastSteps = n + 4
+	} else {
+		e.lastSteps = 1
+	}
+	return after + " " + again, viol
+}
+
 func (e *fileSysExec) Exec(line string) (obs, viol string) {
 	t := strings.Fields(line)
+	if t[0] == "fsame" {
+		n, _ := strconv.Atoi(t[1])
+		return e.execSame(n, t[2])
+	}
 	if t[0] == "fctx" {
 		n, _ := strconv.Atoi(t[1])
 		k, _ := strconv.Atoi(t[2])
@@ -314,7 +369,7 @@ func (e *fileSysExec) Exec(line string) (obs, viol string) {
 
 func (e *fileSysExec) ModelLine(line string) string {
 	t := strings.Fields(line)
-	if t[0] != "fsys" && t[0] != "fctx" {
+	if t[0] != "fsys" && t[0] != "fctx" && t[0] != "fsame" {
 		return e.fileCrashExec.ModelLine(line)
 	}
 	// the step model at a cut with the same outcome class (which step a system call belongs to is
